@@ -401,6 +401,17 @@ def run(tier):
     # the push interface delivers a whole sentence too: a call of load that returns Ok has handed over a document or StreamEnd
     from . import C17 as _C17
     _C17.load_delivers(rep, F, rule="push-sentence-complete")
+    # "A parse that reports no error delivers a whole sentence with nothing after StreamEnd": the state machine produces StreamEnd once
+    # (role typing, above); that the drivers hand it out once rests on the fuse - every driver goes through next_event_impl, which drains
+    # the peek slot first, the fuse is tested before producing and set exactly on StreamEnd.  Those are C17's rules; they are run here as
+    # a premise.
+    if os.environ.get("VERIF_C02_NO_PREMISE") != "1":
+        from . import C17 as _C17
+        sub = _C17.run("quick")
+        prem = [v for v in sub.violations if v["rule"] in ("single-source", "drain-before-parse", "fuse-tested", "fuse-set", "driver-purity")]
+        rep.check(not prem, "stream-end-fuse-premise", "next_event/peek", "the drivers no longer provably hand StreamEnd out once (%s): after StreamEnd a further "
+                  "call can deliver another event" % "; ".join(sorted({"%s %s" % (v["rule"], v["key"].split(":", 1)[-1][:50]) for v in prem})[:3]),
+                  site=F.fn(PARSER + "::next_event").span, detail={"violations_of_C17": len(prem)})
     return rep
 
 
